@@ -269,7 +269,7 @@ PROPS = {
         "rule": "one case = one (mode spelling, year) with all 6 conversion directions for every day of that year, "
                 "or one batch of year-range queries, or one object-level conversion; non-trivial = year is a leap, "
                 "century, non-positive, >9999 or 53-week year (year cases), every range batch and conversion",
-        "exhaustive_part": {"quick": "every day of 1996-2028, all century years 1600-2400, years -5..5, 9998-10001 "
+        "exhaustive_part": {"quick": "every day of 1996-2060, all century years 1600-2400, years -5..5, 9998-10001 "
                                      "and every 7th year of -401..1, x 4 modes",
                             "thorough": "every day of the full 400-year cycle 2000-2399 x 4 modes (complete quotient of "
                                         "the Gregorian calendar; the fixed calendars repeat after 7 years)"},
